@@ -4,6 +4,7 @@
 #define FILENAME_C(line) FILENAME_FOR_EXCEPTIONS_C("src/libawkward/Index.cpp", line)
 
 #include <cstring>
+#include <limits>
 #include <iomanip>
 #include <sstream>
 #include <type_traits>
@@ -83,9 +84,27 @@ namespace awkward {
     return ptr_.get() + offset_;
   }
 
+  namespace {
+    // number of bytes for `length` items, refusing counts whose byte length
+    // does not fit (a valid array can be that long without holding any data:
+    // a RegularArray of size 0)
+    template <typename T>
+    int64_t
+    bytelength_of(int64_t length) {
+      if (length < 0  ||
+          length > std::numeric_limits<int64_t>::max() / (int64_t)sizeof(T)) {
+        throw std::invalid_argument(
+          std::string("Index length ") + std::to_string(length)
+          + std::string(" is negative or too large to allocate")
+          + FILENAME(__LINE__));
+      }
+      return length * (int64_t)sizeof(T);
+    }
+  }
+
   template <typename T>
   IndexOf<T>::IndexOf(int64_t length, kernel::lib ptr_lib)
-    : ptr_(kernel::malloc<T>(ptr_lib, length * (int64_t)sizeof(T)))
+    : ptr_(kernel::malloc<T>(ptr_lib, bytelength_of<T>(length)))
     , ptr_lib_(ptr_lib)
     , offset_(0)
     , length_(length)
